@@ -625,7 +625,10 @@ def empty_batch_shortcut(ctx, rule):
         ctx.ob(rule, ie, "empty-means-no-items", ok_len and ok_ie, "is_empty = (data.len() == 0)" if ok_len and ok_ie else
                "WriteBatch::is_empty is %s with len = %s: a batch that has items can be taken for empty and acknowledged without being written" % (A.tstr(t)[:80], A.tstr(l)[:60]))
     if bc:
-        calls = [b for b, t in bc.calls() if A.cname(t) == "batch::WriteBatch::is_empty"]
+        ogb = ctx.og(bc)
+        # `self.is_empty()` or, equivalently, `self.data.is_empty()`
+        calls = [b for b, t in bc.calls() if A.cname(t) == "batch::WriteBatch::is_empty" or
+                 (A.cname(t).endswith("::is_empty") and "Vec" in A.cname(t) and A.tstr(ogb.of_operand(t["args"][0])).endswith("P1(self).data"))]
         ok = False
         detail = "commit does not ask is_empty()"
         if len(calls) == 1:
